@@ -142,6 +142,7 @@ struct Collector<'a> {
     chain_log: Vec<String>,
     extra: BTreeMap<&'static str, usize>,
     tmps: usize,
+    into_action: bool,
 }
 
 impl<'a> Collector<'a> {
@@ -393,7 +394,7 @@ impl<'a> Collector<'a> {
     }
     fn render(&mut self, e: &syn::Expr) -> String {
         let (s, en) = range(e.span());
-        let mut sub = Collector { src: self.src, srcmap: self.srcmap.clone(), chains: self.chains, ..Default::default() };
+        let mut sub = Collector { src: self.src, srcmap: self.srcmap.clone(), chains: self.chains, into_action: self.into_action, ..Default::default() };
         sub.visit_expr(e);
         self.chains = sub.chains;
         self.errors.extend(sub.errors.drain(..));
@@ -710,6 +711,13 @@ impl<'a, 'ast> Visit<'ast> for Collector<'a> {
             self.push(s, e, format!("parse_as(&{recv})"), "R9");
             return;
         }
+        if self.into_action && name == "into" && m.args.is_empty() {
+            // R12: `x.into()` where the target is Action (i8 / f64 -> Action): resolved through the local trait IntoAction
+            let (ms, me) = range(m.method.span());
+            self.visit_expr(&m.receiver);
+            self.push(ms, me, "into_action".into(), "R12");
+            return;
+        }
         if name == "to_string" && m.args.is_empty() {
             let (ms, me) = range(m.method.span());
             self.visit_expr(&m.receiver);
@@ -738,6 +746,22 @@ impl<'a, 'ast> Visit<'ast> for Collector<'a> {
         } else {
             self.errors.push(format!("unsupported trait object `{}`", &self.src[s..e]));
         }
+    }
+    fn visit_expr_call(&mut self, c: &'ast syn::ExprCall) {
+        if self.into_action {
+            if let syn::Expr::Path(p) = &*c.func {
+                let t = nows(&self.src[range(p.span()).0..range(p.span()).1]);
+                if t == "Action::from" {
+                    let (s, e) = range(p.span());
+                    self.push(s, e, "Action::from_any".into(), "R12");
+                    for a in c.args.iter() {
+                        self.visit_expr(a);
+                    }
+                    return;
+                }
+            }
+        }
+        syn::visit::visit_expr_call(self, c);
     }
     fn visit_expr_unsafe(&mut self, u: &'ast syn::ExprUnsafe) {
         let (s, e) = range(u.unsafe_token.span());
@@ -945,6 +969,7 @@ fn extract(src: &Src, b: &Block, report: &mut Vec<serde_json::Value>, vacuity: b
     let mut rename: Option<String> = None;
     let mut keepvis = false;
     let mut keepderive = false;
+    let mut into_action = false;
     for o in &b.opts {
         if o == "pub" {
             force_pub = Some(true)
@@ -956,6 +981,8 @@ fn extract(src: &Src, b: &Block, report: &mut Vec<serde_json::Value>, vacuity: b
             keepvis = true
         } else if o == "keepderive" {
             keepderive = true
+        } else if o == "into=action" {
+            into_action = true
         } else if let Some(v) = o.strip_prefix("ret=") {
             ret_name = Some(v.to_string())
         } else if let Some(v) = o.strip_prefix("rename=") {
@@ -973,7 +1000,7 @@ fn extract(src: &Src, b: &Block, report: &mut Vec<serde_json::Value>, vacuity: b
         s0 = s0.min(range(a.span()).0);
     }
     let orig = text[s0..e0].to_string();
-    let mut col = Collector { src: text, srcmap: b.srcs.clone(), ..Default::default() };
+    let mut col = Collector { src: text, srcmap: b.srcs.clone(), into_action, ..Default::default() };
     // R1 attributes on the item
     for a in f.attrs {
         if keepderive && a.path().is_ident("derive") {
@@ -1263,7 +1290,7 @@ fn extract(src: &Src, b: &Block, report: &mut Vec<serde_json::Value>, vacuity: b
             out = out.replace(&ph, &txt);
         }
     }
-    for (p, _) in &b.hints {
+    for (p, _) in b.hints.iter().filter(|_| contract_only.is_none()) {
         if let Some(k) = p.strip_prefix("chain ").or_else(|| p.strip_prefix("chain-item ")).or_else(|| p.strip_prefix("chain-end ")).or_else(|| p.strip_prefix("chain-start ")) {
             let k: usize = k.trim().parse().map_err(|_| "bad chain ordinal")?;
             if k >= col.chains {
